@@ -36,6 +36,26 @@ def run(ctx):
             except Break as b:
                 ctx.breaks.append(b)
     if ok_go:
+        # the slot cache underneath the inode cache: identity of the slot returned by every lookup
+        cf = os.path.join(ctx.scratch, "cache.txt")
+        rc, err = ctx.harness(["cache", "-seed", str(ctx.seed)] + (["-seqs", "200", "-ops", "1000"] if ctx.tier == "thorough" else ["-seqs", "30", "-ops", "400"]), cf)
+        if rc != 0:
+            ctx.breaks.append(Break("correspondence", "harness cache failed to run", err[-2000:]))
+        elif ok_drv:
+            try:
+                n, mism, _ = ctx.driver("cache", cf)
+                ctx.cov["traces_validated_against_impl"] += n
+                ctx.cov["evaluations"] += n
+                ctx.cov["cache_lookups_compared"] = n
+                if mism:
+                    ctx.breaks.append(Break("correspondence", "slot-cache model and cache.Cache disagree on the identity of the slot returned", "\n".join(mism[:8])))
+                    ctx.add_violation("cache:slot-identity", mism[0][:400],
+                                      {"how": "harness cache: random LookupSlot calls on the real cache.Cache; slots numbered by first appearance of their address "
+                                              "(all kept alive); the model hands out a fresh slot on every miss",
+                                       "line": mism[0].split(" :: ")[-1][:400]})
+            except Break as b:
+                ctx.breaks.append(b)
+    if ok_go:
         # resource exhaustion: every allocation path at the exact boundary of a full disk (harness reclaim)
         rl = fscklib.run_images(ctx, ok_drv, "reclaim", ["reclaim", "-seed", str(ctx.seed)] + (["-hists", "9", "-rounds", "3"] if ctx.tier == "thorough" else ["-hists", "3", "-rounds", "1"]), set(), False)
         fscklib.oracle_lines(ctx, rl, "C10", "harness reclaim -seed %d (full-disk scenarios)" % ctx.seed)
